@@ -386,7 +386,7 @@ class ExecMixin:
                 return z3.Length(s), (lambda k: Z(T("dyn"), s[k]))
             if which == "str":
                 s = smt.dyn_acc("DStr", 0, v.e)
-                return z3.Length(s), (lambda k: Z(T("char"), s[k]))
+                return z3.Length(s), (lambda k: Z(T("char"), smt.seq_nth(s, k)))
             raise PyRaise(self.make_exc(st, "TypeError", []))
         if isinstance(v, Arr):
             return v.n, (lambda k: zint(v.a[k]))
